@@ -139,7 +139,15 @@ func RunCase(seed uint64, idx int, p *Profile, o *Opts, st *Stats) (cr *CaseResu
 			if cr == nil {
 				cr = &CaseResult{Seed: seed, Case: idx, Profile: p.Name, Cov: map[string]int64{}}
 			}
-			cr.HarnessPanic = fmt.Sprintf("%v\n%s", pv, debug.Stack())
+			stack := string(debug.Stack())
+			if panicInLibrary(stack) {
+				// a read-only call made by a monitor (sweep, query comparison, probe) panicked inside the library:
+				// that is a finding about the library, not a defect of the harness
+				cr.Viol = append(cr.Viol, Violation{Prop: "C10", Kind: "monitor-call-panicked", Op: cr.NOps,
+					Msg: fmt.Sprintf("a valid call made by a monitor panicked inside the library: %v\n%s", pv, trimStack(stack))})
+				return
+			}
+			cr.HarnessPanic = fmt.Sprintf("%v\n%s", pv, stack)
 		}
 	}()
 	r := NewRng(mix(seed, idx))
@@ -621,6 +629,26 @@ func replayTwin(d *Drv, cfg Config, ops []*Op, o *Opts, cr *CaseResult) {
 	if a != b {
 		d.viol("C19", "stats-replay", "incrementally updated Stats() differ from a replay asked once:\n--- incremental\n%s--- replay\n%s", a, b)
 	}
+}
+
+// panicInLibrary reports whether the innermost non-runtime frame of a panic stack belongs to the library.
+func panicInLibrary(stack string) bool {
+	lines := strings.Split(stack, "\n")
+	seenPanic := false
+	for _, l := range lines {
+		if strings.HasPrefix(l, "panic(") {
+			seenPanic = true
+			continue
+		}
+		if !seenPanic || strings.HasPrefix(l, "\t") || l == "" {
+			continue
+		}
+		if strings.HasPrefix(l, "runtime.") {
+			continue
+		}
+		return strings.HasPrefix(l, "github.com/mlange-42/ark/ecs")
+	}
+	return false
 }
 
 // SortedKeys helper for evidence output.
